@@ -65,6 +65,10 @@ type c15Case struct {
 	Files      []c15File `json:"files,omitempty"`       // files / dir (dir: includes Chart.yaml and .helmignore)
 	PkgVersion string    `json:"pkg_version,omitempty"` // dir: --version override
 	MaxFile    int64     `json:"max_file,omitempty"`    // loader.MaxDecompressedFileSize for this case (0 = default)
+	Pat        []byte    `json:"pat,omitempty"`         // match: the pattern (bytes: need not be UTF-8)
+	Names      [][]byte  `json:"names,omitempty"`       // match: the names it is tried on
+	Ex         bool      `json:"ex,omitempty"`
+	Rows       [][]byte  `json:"rows,omitempty"`        // matchex: patterns, each tried on the fixed name list
 	Note       string    `json:"note,omitempty"`
 }
 
@@ -107,6 +111,9 @@ type c15Obs struct {
 	Ignored    []string   `json:"ignored,omitempty"`   // dir: paths excluded by the real rules (files, incl. below ignored dirs)
 	IgnoreErr  bool       `json:"ignore_err,omitempty"`
 	Wf         bool       `json:"wf"`
+	MatchRes   string     `json:"match_res,omitempty"` // match: y/n/e per name
+	IgnRes     string     `json:"ign_res,omitempty"`   // match: the pattern as a .helmignore line, i/k per (name, file|dir)
+	RowRes     []string   `json:"row_res,omitempty"`   // matchex
 	Oracle     *c15Oracle `json:"-"`
 	Panic      string     `json:"panic,omitempty"`
 }
@@ -312,6 +319,10 @@ func (p *c15) Execute(ci any) (out any) {
 		obs = c15ExecFiles(&c)
 	case "dir":
 		obs = c15ExecDir(&c, tmp)
+	case "match":
+		obs = c15ExecMatch(&c)
+	case "matchex":
+		obs = c15ExecMatchEx(&c)
 	}
 	return obs
 }
@@ -743,9 +754,28 @@ func (p *c15) Oracle(ci, oi any) []hx.Violation {
 			// ... and every entry of the archive stays below <name>/
 			// (root names ".", ".." and "/" equal their own base name and are accepted by Helm; what
 			// they lead to is recorded in notes/C15.md as an observation)
+			// Only chart NAMES are the subject here: a template or file whose own name climbs out
+			// ("../up" in an in-memory chart; no loader produces one) leaves the directory whatever
+			// the chart is called, and the property text does not speak about it.
 			root := c15Sanitized(m).Name
+			var climbing func(d *c15Chart) bool
+			climbing = func(d *c15Chart) bool {
+				for _, l := range [][]c15File{d.Templates, d.Files} {
+					for _, f := range l {
+						if !c15CleanRel(f.Name) {
+							return true
+						}
+					}
+				}
+				for _, sub := range d.Deps {
+					if climbing(sub) {
+						return true
+					}
+				}
+				return false
+			}
 			for _, e := range obs.Saved {
-				if root == "." || root == ".." || root == "/" {
+				if root == "." || root == ".." || root == "/" || climbing(c.Chart) {
 					break
 				}
 				if !strings.HasPrefix(e.Name, root+"/") {
@@ -898,6 +928,8 @@ func (p *c15) Class(ci, oi any) string {
 			return k + "loaded:package-refused"
 		}
 		return k + "loaded:packaged"
+	case "match", "matchex":
+		return c15MatchClass(c, obs)
 	}
 	return c.Kind
 }
@@ -911,6 +943,10 @@ func (p *c15) NonTrivial(ci, oi any) bool {
 		return obs.Loaded != nil
 	case "dir":
 		return obs.DirLoaded != nil
+	case "match":
+		return strings.ContainsAny(obs.MatchRes, "y") // the pattern matched one of the names
+	case "matchex":
+		return true
 	}
 	return false
 }
@@ -921,4 +957,11 @@ func (*c15) Decode(raw json.RawMessage) (any, error) {
 	return c, err
 }
 
-func (*c15) Exhaustive(tier string) []any { return nil }
+// Exhaustive: filepath.Match on every pattern of at most 2 (quick) / 4 (thorough) letters over
+// {a b * ? [ ] - ^ \ /} against 51 fixed names.
+func (*c15) Exhaustive(tier string) []any {
+	if tier == "thorough" {
+		return c15MatchExhaustive(4, 600)
+	}
+	return c15MatchExhaustive(2, 200)
+}
